@@ -241,10 +241,14 @@ where
                     // 5.
                     let v = algo.beta * (u1 / (F::one() - u1)).ln();
                     w = self.a * v.exp();
-                    if !(algo.alpha * ((algo.alpha / (self.b + w)).ln() + v)
-                        - F::from(4.).unwrap().ln()
-                        < z.ln())
-                    {
+                    // ln(alpha / (b + w)) + v tends to ln(alpha / a) as w = a exp(v) grows; when
+                    // exp(v) overflows, `-inf + v` would wrongly reject the proposal
+                    let log_ratio = if w == F::infinity() {
+                        (algo.alpha / self.a).ln()
+                    } else {
+                        (algo.alpha / (self.b + w)).ln() + v
+                    };
+                    if !(algo.alpha * log_ratio - F::from(4.).unwrap().ln() < z.ln()) {
                         break;
                     };
                 }
